@@ -120,6 +120,14 @@ pub fn c05_case(ctx: &mut Ctx, rng: &mut Rng, stage: &str, xdir: &str) {
         case.spec.ranges.insert(0, Range { lo: 0, hi: if rng.chance(0.5) { 0 } else { 0x1F }, cats: vec![k] });
         ctx.bucket("char_def_assigns_U+0000");
     }
+    if rng.chance(0.02) {
+        // a feature string of 65536 bytes or more (each cell stays below the 4096-byte limit of the CSV reader)
+        let cell = "y".repeat(3400 + rng.below(600));
+        let n = 65_536 / cell.len() + 1 + rng.below(3);
+        let row = rng.below(case.spec.lex.len().min(2));
+        case.spec.lex[row].feat = format!("G,{}", vec![cell; n].join(","));
+        ctx.bucket("feature_string_of_65536_bytes_or_more");
+    }
     // characters behind the last char.def range, up to the end of the table
     case.sentences.push("\u{FFE5}a\u{FFFD}".to_string());
     case.sentences.push("\u{FFFF}\u{FFFE}".to_string());
@@ -570,6 +578,24 @@ pub fn c09_case(ctx: &mut Ctx, _rng: &mut Rng, stage: &str) {
             v.extend_from_slice(&img[MAGIC.len()..]);
             bad(ctx, v, format!("header {:?} followed by a valid body", old));
         }
+        // streams of another kind altogether: the header decides, whatever follows it
+        bad(ctx, vec![0u8; 64], "64 zero bytes".into());
+        bad(ctx, vec![0u8; 4096], "4096 zero bytes".into());
+        bad(ctx, vec![0xFFu8; 300], "300 bytes 0xFF".into());
+        bad(ctx, b"This is a text file, not a dictionary. ".repeat(20), "a text file".into());
+        bad(ctx, img[1..].to_vec(), "the image without its first byte".into());
+        let mut shifted = vec![0u8];
+        shifted.extend_from_slice(&img);
+        bad(ctx, shifted, "NUL + the whole image".into());
+        let mut old_garbage = b"VibratoTokenizer 0.4\n".to_vec();
+        old_garbage.extend(std::iter::repeat(0u8).take(1000));
+        bad(ctx, old_garbage, "an older header followed by 1000 zero bytes".into());
+        let mut r3 = Rng(which ^ 0xC09);
+        for i in 0..40 {
+            let n = 22 + r3.below(3000);
+            let v: Vec<u8> = (0..n).map(|_| r3.next() as u8).collect();
+            bad(ctx, v, format!("{n} random bytes (#{i})"));
+        }
         let mut v = img[MAGIC.len()..].to_vec();
         bad(ctx, v.clone(), "body without header".into());
         v.splice(0..0, b"\0".iter().cloned());
@@ -591,7 +617,7 @@ fn c11_cell(rng: &mut Rng, s: &str) -> String {
 
 pub fn c11_case(ctx: &mut Ctx, rng: &mut Rng) {
     // surfaces over an alphabet with commas, quotes, spaces and multi-byte text
-    let pool: Vec<char> = vec!['a', 'b', ',', '"', ' ', 'あ', '漢', '𠮷', 'é', 'x', '\'', ';', '#', '\\', '0', '-', '\t', '/', '*', '\u{3000}'];
+    let pool: Vec<char> = vec!['a', 'b', ',', '"', ' ', 'あ', '漢', '𠮷', 'é', 'x', '\'', ';', '#', '\\', '0', '-', '\t', '/', '*', '\u{3000}', '\\'];
     // now and then hundreds of rows sharing one surface (a posting list longer than 255)
     let many_homographs = rng.chance(0.015);
     let n = if many_homographs { 256 + rng.below(60) } else { 1 + rng.below(14) };
@@ -622,7 +648,8 @@ pub fn c11_case(ctx: &mut Ctx, rng: &mut Rng) {
         };
         let mut cells: Vec<String> = vec![];
         for c in 0..ncol {
-            cells.push(match rng.below(8) {
+            cells.push(match rng.below(9) {
+                8 => ["\"\\\"", "\"C:\\,D\"", "b\\"][rng.below(3)].into(),
                 7 => "t\t".into(),
                 0 => "*".into(),
                 1 => format!("\"q,{i}\""),
@@ -655,6 +682,13 @@ pub fn c11_case(ctx: &mut Ctx, rng: &mut Rng) {
         let q = |rng: &mut Rng, s: String| if rng.chance(0.2) { format!("\"{s}\"") } else { s };
         csv += &format!("{},{},{},{},{}", c11_cell(rng, &r.surface), q(rng, r.l.to_string()), q(rng, r.r.to_string()), q(rng, r.cost.to_string()), r.feat);
         if i + 1 < rows.len() || rng.chance(0.5) {
+            csv.push('\n');
+        }
+    }
+    if csv.ends_with('\n') && rng.chance(0.15) {
+        // blank lines at the end of the file
+        csv.push('\n');
+        if rng.chance(0.3) {
             csv.push('\n');
         }
     }
@@ -1097,7 +1131,9 @@ fn c07_scorer(ctx: &mut Ctx, rng: &mut Rng, tiny: bool) {
 pub fn c13_case(ctx: &mut Ctx, rng: &mut Rng) {
     let ign = rng.chance(0.4);
     let cfg = GenCfg { clean_space: ign, max_ids: 6, ..Default::default() };
-    let mut case = gen_tokcase(rng, &cfg, 12, false);
+    // (with earlier id mappings, user lexicon before or after them, write/read: the dictionary that is counted and
+    // re-mapped here may already carry a stored mapping and a user lexicon)
+    let mut case = gen_tokcase(rng, &cfg, 12, true);
     if !ign && rng.chance(0.15) {
         // large id spaces with many frequency ties (one single-character word per id)
         let n = 34 + rng.below(40);
